@@ -324,7 +324,7 @@ def run(tier: str) -> int:
     exprs = []
     for i in range(n_cases):
         size = rnd.choice([1, 2, 3, 3, 4, 4, 5, 6, 7, 9])
-        e = gen(rnd, size)
+        e = gen_nested_ac(rnd) if i % 8 == 7 else gen(rnd, size)
         exprs.append(e)
         stats["by_size"][size] = stats["by_size"].get(size, 0) + 1
     stats["expressions"] = len(exprs)
